@@ -313,7 +313,20 @@ pub fn run(id: &str, tier: Tier, replay: Option<&str>) -> i32 {
     }
     let ctx = Ctx::new(id, tier);
     let acc = Acc::default();
-    let grams = lr_grammars(tier);
+    let mut grams = lr_grammars(tier);
+    // recursive start symbols also with every occurrence decorated (clipped / member name / user type):
+    // decorations must not change what the parser accepts or how it derives
+    let rec: Vec<Gram> = grams.iter().filter(|g| g.is_bnf() && g.deco.is_empty() && g.prods.iter().any(|(_, a)| a.iter().any(|s| s.contains(&Fac::N(0))))).cloned().collect();
+    for (i, g) in rec.iter().enumerate() {
+        for (j, d) in ["^", "@m", " : crate::T", "@m : crate::T"].iter().enumerate() {
+            if tier == Tier::Quick && (i + j) % 4 != 0 {
+                continue;
+            }
+            let mut g2 = g.clone();
+            g2.deco = vec![d.to_string()];
+            grams.push(g2);
+        }
+    }
     let n = tier.pick(5, 7);
     acc.count("grammars_enumerated", grams.len() as u64);
     let cases: Vec<Case> = grams.into_iter().map(|g| Case { gram: g, n, input: None }).collect();
@@ -327,7 +340,7 @@ pub fn run(id: &str, tier: Tier, replay: Option<&str>) -> i32 {
         }
     });
     let rule = if mode.c03 {
-        format!("every productive, reachable canonical BNF grammar (left recursion and start symbols on right-hand sides included) of the stated space plus EBNF bodies, with %grammar_type 'LALR(1)'; table construction inside catch_unwind; for every table built without resolved conflicts: every token string of length <= {n} over the terminals plus one foreign token through the real scanner and LRParser; oracle: membership in L<={n}; on success the reductions, replayed on a stack, must build one tree rooted at the start symbol whose yield is the input (reverse rightmost derivation) and equal the delivered tree. Non-trivial = runs on grammars with both sentences and non-sentences.")
+        format!("every productive, reachable canonical BNF grammar (left recursion and start symbols on right-hand sides included, recursive start symbols also with their occurrences decorated by ^ / @m / : type) of the stated space plus EBNF bodies, with %grammar_type 'LALR(1)'; table construction inside catch_unwind; for every table built without resolved conflicts: every token string of length <= {n} over the terminals plus one foreign token through the real scanner and LRParser; oracle: membership in L<={n}; on success the reductions, replayed on a stack, must build one tree rooted at the start symbol whose yield is the input (reverse rightmost derivation) and equal the delivered tree. Non-trivial = runs on grammars with both sentences and non-sentences.")
     } else {
         format!("same grammar space; oracle 1: if a textbook LALR(1) construction (canonical LR(1) item sets merged by core) finds a conflict, parol must reject the grammar or report >= 1 resolved conflict; oracle 2: every input of length <= {n} accepted by any table parol builds is in L<={n}. Non-trivial = grammars with a reference conflict or a resolved conflict.")
     };
